@@ -28,4 +28,60 @@ theorem xkey_valid (k : XKey) :
   · rintro ⟨⟨a, b, c, d, e, f⟩, _⟩; exact ⟨a, by omega, c, by omega, e, f⟩
   · rintro ⟨a, b, c, d, e, f⟩; exact ⟨⟨a, by omega, c, by omega, e, f⟩, trivial⟩
 
+theorem lawful_ssaSig : Lawful ssaSig := by
+  have h := lawful_pair (lawful_uintBE 32) (lawful_uintBE 32)
+  apply lawful_guardLen h
+  intro t hv; rw [← h.size_eq t hv]; exact Nat.le_of_eq rfl
+
+theorem lawful_bmsSig : Lawful bmsSig := by
+  have h := lawful_pair (lawful_uintBE 1) (lawful_pair (lawful_uintBE 32) (lawful_uintBE 32))
+  apply lawful_guardLen h
+  intro t hv; rw [← h.size_eq t hv]; exact Nat.le_of_eq rfl
+
+theorem ssaSig_valid (t : Nat × Nat) : ssaSig.valid t ↔ t.1 < 2 ^ 256 ∧ t.2 < 2 ^ 256 := by
+  simp only [ssaSig, Codec.guardLen, pair, uintBE_valid]
+
+theorem bmsSig_valid (t : Nat × Nat × Nat) :
+    bmsSig.valid t ↔ t.1 < 256 ∧ t.2.1 < 2 ^ 256 ∧ t.2.2 < 2 ^ 256 := by
+  simp only [bmsSig, Codec.guardLen, pair, uintBE_valid]
+
+theorem lawful_keyOriginN (n : Nat) : Lawful (keyOriginN n) :=
+  lawful_pair (lawful_bytesN 4 _) (lawful_listN (lawful_uintLE 4) n)
+
+theorem sizeList_uint4 (l : List Nat) : sizeList (uintLE 4) l = 4 * l.length := by
+  induction l with
+  | nil => rfl
+  | cons x xs ih => simp only [sizeList, List.map_cons, List.sum_cons, List.length_cons] at ih ⊢; rw [ih]; simp; omega
+
+/-- `BIP32KeyOrigin` on octets: accepted iff a 4-byte fingerprint followed by 4-byte little-endian
+    indexes below 2^32 and nothing else -/
+theorem keyOrigin_parseAll_iff (b : Bytes) (k : Bytes × List Nat) :
+    keyOriginParseAll b = .ok k ↔ (k.1.length = 4 ∧ ∀ i ∈ k.2, i < 2 ^ 32) ∧ b = keyOriginSer k := by
+  have hvalid : ∀ n, (keyOriginN n).valid k ↔ (k.1.length = 4 ∧ k.2.length = n ∧ ∀ i ∈ k.2, i < 2 ^ 32) := by
+    intro n
+    simp only [keyOriginN, pair, bytesN, listN, uintLE_valid]
+  unfold keyOriginParseAll keyOriginSer
+  constructor
+  · intro h
+    split at h
+    · cases h
+    · split at h
+      · cases h
+      · have ⟨hv, e⟩ := ((lawful_keyOriginN _).parseAll_iff b k).1 h
+        have ⟨a, l, c⟩ := (hvalid _).1 hv
+        rw [l]
+        exact ⟨⟨a, c⟩, e⟩
+  · rintro ⟨⟨a, c⟩, rfl⟩
+    have hv : (keyOriginN k.2.length).valid k := (hvalid _).2 ⟨a, rfl, c⟩
+    have hl := (lawful_keyOriginN k.2.length).size_eq k hv
+    simp only [keyOriginN, pair, bytesN, listN, sizeList_uint4] at hl
+    have hl' : ((keyOriginN k.2.length).ser k).length = 4 + 4 * k.2.length := by
+      simp only [keyOriginN, pair, bytesN, listN]; exact hl.symm
+    rw [hl']
+    have h1 : ¬ (4 + 4 * k.2.length < 4) := by omega
+    have h2 : ¬ ((4 + 4 * k.2.length - 4) % 4 ≠ 0) := by omega
+    have h3 : (4 + 4 * k.2.length - 4) / 4 = k.2.length := by omega
+    simp only [h1, h2, h3, if_false]
+    exact (lawful_keyOriginN _).parseAll_ser k hv
+
 end Btc.Wire
